@@ -1,5 +1,5 @@
 (* Extraction of the executable models to OCaml. ExtrOcamlBasic only: bool, option, list, prod,
    unit, sumbool map to OCaml's; nat/positive/N/Z stay the extracted inductives. No Extract Constant. *)
 From Coq Require Import Extraction ExtrOcamlBasic.
-From Sodium Require Import Gc Engine EngineScript Sodium Threads Net.
-Extraction "model.ml" Gc.sstep Gc.sinit Gc.svalid Gc.srun Gc.cfuel EngineScript.estep Sodium.step Sodium.step_q Sodium.defer_one Sodium.heads Sodium.init_state Threads.run_schedule Net.ndeps Sodium.occ Sodium.upd Sodium.F Sodium.is_cell Sodium.body Sodium.set_depth Sodium.alookup.
+From Sodium Require Import Gc Engine EngineScript Sodium Threads Net Heap.
+Extraction "model.ml" Gc.sstep Gc.sinit Gc.svalid Gc.srun Gc.cfuel EngineScript.estep Sodium.step Sodium.step_q Sodium.defer_one Sodium.heads Sodium.init_state Threads.run_schedule Net.ndeps Sodium.occ Sodium.upd Sodium.F Sodium.is_cell Sodium.body Sodium.set_depth Sodium.alookup Heap.hstep Heap.hinit Heap.hview Heap.live_nodes Heap.teardown Heap.held.
